@@ -149,13 +149,20 @@ impl Property for C15 {
                     // timestamps before 1970 (the clock is near 2090)
                     _ => if minutes { rng.irange(63_000_000, 90_000_000) } else { rng.irange(44_000, 60_000) },
                 };
+                // now and then the timestamp under test is the epoch itself (or a nanosecond
+                // or a second off it): an absolute value, not an age, that code may single out
+                let epoch_anchor = which != 'c' && rng.chance(1, 25);
+                let k = if epoch_anchor { base_now / (period * NS) } else { k };
                 let n = (k + rng.irange(-1, 1)).max(0) as u64;
                 let cmp = *rng.pick(&['=', '+', '-']);
                 test = Test::Age { which, minutes, cmp, n };
-                for _ in 0..nfiles {
+                for fi in 0..nfiles {
                     // age = k' * period + eps, around the boundary under test
                     let kk = (k + rng.irange(-1, 1)).max(0);
-                    let age = (kk * period * NS + eps(rng)).max(0);
+                    let mut age = (kk * period * NS + eps(rng)).max(0);
+                    if epoch_anchor && fi == 0 {
+                        age = base_now - *rng.pick(&[0i64, 0, 1, NS, -1, -NS]);
+                    }
                     let other_age = rng.irange(0, 800 * DAY) * NS + rng.irange(0, NS - 1);
                     let (a, m) = match which {
                         'a' => (base_now - age, base_now - other_age),
